@@ -245,6 +245,14 @@ DETECT.update({
     "C14-k": (["C14"], "DETECTED", "CheckProposal counts signers in a buffer kept on the verifier and only truncated on the non-error path: members left over from a rejected certificate count towards the next one (reported as 'flaky' by rapid - the verdict depends on the verifier's history - with the first failing certificate as replay file)"),
     "C16-k": (["C16"], "DETECTED", "SetCompact memoises and returns the shared big.Int: the retarget computation scales the memo entry in place, later blocks with the old bits are judged against a drifted target"),
     "C19-k": (["C19"], "MISSED", "needed vote amounts that are decorated decimals (leading / trailing blanks, tab, newline, sign, leading zeros): 1 vote in 6 and 4 transfer candidates; the model records what a vote really locked, so the release of more than that is reported (negative lock)"),
+    "C02-k": (["C02"], "DETECTED", "the remembered outputs of an open batch (fix a2dd9ce) are only forgotten on the success path: an output of a refused block is spendable until the next play"),
+    "C05-k": (["C05"], "DETECTED", "read-set check moved behind the utxo loops: a submission refused for a stale read has already shifted the cached balances (running node differs from the reopened image)"),
+    "C07-k": (["C07"], "MISSED", "needed string fields longer than 256 bytes: 1 base in 3 now has a nonce of 256-700 bytes (hx.TxSpec.NoncePad); the mutator already changes the LAST byte of every string field"),
+    "C08-k": (["C08"], "MISSED", "needed a verifying ledger that already holds the block's transactions: 1 block in 3 is judged after a sibling block of another proposer with the same transactions was confirmed (c08Shape.Known)"),
+    "C09-k": (["C09"], "MISSED", "needed three or more contract-originated transfers in ONE transaction: the contract is now and then funded with 3-5 equal outputs and a program then transfers each of them (whichever output a selection takes first, all are consumed)"),
+    "C15-k": (["C15"], "DETECTED", "adoptOrphans hands its reused scratch slice to the adopting node: the second adoption on a node overwrites the first adopter's children (node reachable twice)"),
+    "C17-k": ([], "MISSED", "NOT DETECTED in the quick tier: the error path of a multi-block walk resets the pending meta to a snapshot taken at the walk's entry; needs slide window > 0, a walk that applies a height-raising block and is then aborted by a later invalid block, and afterwards a walk that undoes a block (the stale pending meta is republished and the in-memory irreversible height drops). C17's mix contains every ingredient (windows, walks into invalid blocks, undoing walks; CheckState compares the height after every step) but the conjunction did not occur in 500 histories at seeds 1-3; no directed draw was added for lack of session time"),
+    "C18-k": ([], "MISSED", "NOT DETECTED: the snapshot's walk along a key's version chain gives up after 256 steps and answers 'never written'; needs more than 255 later writers of one key between the snapshot block and the newest version - histories of 30 steps write a key a dozen times at most; a directed long-chain case (one block with ~260 rewrites of a hot key, ~0.5 s per case) was not built for lack of session time"),
     "C20-k": (["C20"], "MISSED", "needed more than 4096 distinct messages handled by ONE dispatcher inside the de-duplication window: new sub-check dispatch-traffic (4 500 - 9 000 distinct messages to 1-3 subscribers, every message dispatched a second time 0-400 messages later, exactly-once delivery; a repeat is only judged when it was dispatched less than 1 s after the first copy)"),
 })
 
